@@ -715,3 +715,91 @@ func isAstTyped(t types.Type) bool {
 	s := t.String()
 	return strings.Contains(s, "/pkg/ast.")
 }
+
+// resolvedCall: a call of f to target, found in f itself or inside a same-module helper that f calls (one level);
+// Arg translates the helper's parameters back to f's actual arguments, so rules written against f's own values keep
+// working when the call sequence is moved into a helper.
+type resolvedCall struct {
+	Call *ssa.Call // the call to target
+	Via  *ssa.Call // f's call to the helper, nil when direct
+}
+
+func findCallThrough(f, target *ssa.Function) *resolvedCall {
+	var direct *ssa.Call
+	allInstrs(f, func(in ssa.Instruction) {
+		if call, ok := in.(*ssa.Call); ok && call.Call.StaticCallee() == target {
+			direct = call
+		}
+	})
+	if direct != nil {
+		return &resolvedCall{Call: direct}
+	}
+	var res *resolvedCall
+	allInstrs(f, func(in ssa.Instruction) {
+		via, ok := in.(*ssa.Call)
+		if !ok || res != nil {
+			return
+		}
+		h := via.Call.StaticCallee()
+		if h == nil || h == f || !inModule(h) || len(h.Blocks) == 0 {
+			return
+		}
+		allInstrs(h, func(i2 ssa.Instruction) {
+			if call, ok := i2.(*ssa.Call); ok && call.Call.StaticCallee() == target {
+				res = &resolvedCall{Call: call, Via: via}
+			}
+		})
+	})
+	return res
+}
+
+// translate: a value of the helper expressed in f's terms (parameter → actual argument); other values unchanged.
+func (rc *resolvedCall) translate(v ssa.Value) ssa.Value {
+	if rc.Via == nil {
+		return v
+	}
+	h := rc.Via.Call.StaticCallee()
+	for k, prm := range h.Params {
+		if v == ssa.Value(prm) && k < len(rc.Via.Call.Args) {
+			return rc.Via.Call.Args[k]
+		}
+	}
+	return v
+}
+
+func (rc *resolvedCall) Arg(i int) ssa.Value { return rc.translate(rc.Call.Call.Args[i]) }
+
+// Root: rootOf the i-th argument, translated.
+func (rc *resolvedCall) Root(i int) ssa.Value { return rc.translate(rootOf(rc.Call.Call.Args[i])) }
+
+// Result: the value in f that carries the call's result: the call itself, or the helper call when every return
+// of the helper yields the inner call's result.
+func (rc *resolvedCall) Result() ssa.Value {
+	if rc.Via == nil {
+		return rc.Call
+	}
+	h := rc.Via.Call.StaticCallee()
+	ok, n := true, 0
+	allInstrs(h, func(in ssa.Instruction) {
+		ret, isR := in.(*ssa.Return)
+		if !isR || ret.Block() == h.Recover || len(ret.Results) != 1 {
+			return
+		}
+		n++
+		if ret.Results[0] == ssa.Value(rc.Call) {
+			return
+		}
+		if u, isU := ret.Results[0].(*ssa.UnOp); isU {
+			if a, isA := u.X.(*ssa.Alloc); isA {
+				if s := lastStoreBefore(a, u); s != nil && s.Val == ssa.Value(rc.Call) {
+					return
+				}
+			}
+		}
+		ok = false
+	})
+	if ok && n > 0 {
+		return rc.Via
+	}
+	return nil
+}
